@@ -407,4 +407,190 @@ theorem reachable_iff_run (c : C09.Cfg) (s : Store) : Reachable c s ↔ ∃ l, s
     induction l with
     | nil => intro s hs; exact hs
     | cons p ps ih => intro s hs; exact ih _ (.step s p.1 p.2 hs)
+
+/-! ### stores with the same per-DID records are indistinguishable for deliveries -/
+
+/-- two stores hold the same record for every DID (they may list the DIDs in different orders) -/
+def Agree (s₁ s₂ : Store) : Prop := ∀ id, s₁.get id = s₂.get id
+
+/-- the outcome of a delivery without the store -/
+def outcome (r : Res Store) : Res Unit :=
+  match r with | .ok _ => .ok () | .err e => .err e | .panic x => .panic x
+
+section
+variable {s₁ s₂ : Store} (h : Agree s₁ s₂)
+include h
+
+theorem resolve_agree : resolve s₁ = resolve s₂ := by
+  funext id rm; unfold resolve; rw [h id]
+
+theorem storeDoc_agree : storeDoc s₁ = storeDoc s₂ := by
+  funext rm id; unfold storeDoc; rw [resolve_agree h]
+
+theorem resolverResolve_agree (n : Nat) : resolverResolve n s₁ = resolverResolve n s₂ := by
+  funext rm id; unfold resolverResolve; rw [storeDoc_agree h]
+
+theorem resolveControllersTop_agree (n : Nat) : resolveControllersTop n s₁ = resolveControllersTop n s₂ := by
+  funext rm doc; unfold resolveControllersTop; rw [resolverResolve_agree h]
+
+theorem verifySig_agree : verifySig s₁ = verifySig s₂ := by
+  funext tx; unfold verifySig resolvePublicKeyStore; rw [storeDoc_agree h]
+
+theorem resolvePublicKey_agree (n : Nat) : resolvePublicKey n s₁ = resolvePublicKey n s₂ := by
+  funext kid prevs; unfold resolvePublicKey; rw [resolverResolve_agree h]
+
+theorem currentVersion_agree (id : String) (prevs : List Nat) : currentVersion s₁ id prevs = currentVersion s₂ id prevs := by
+  induction prevs with
+  | nil => simp only [currentVersion, resolve_agree h]
+  | cons p ps ih => simp only [currentVersion, resolve_agree h, ih]
+
+theorem namedVersions_agree (id : String) (prevs : List Nat) : namedVersions s₁ id prevs = namedVersions s₂ id prevs := by
+  induction prevs with
+  | nil => simp only [namedVersions]
+  | cons p ps ih => simp only [namedVersions, resolve_agree h, ih]
+
+theorem otherNamed_agree (id : String) (prevs : List Nat) : otherNamed s₁ id prevs = otherNamed s₂ id prevs := by
+  unfold otherNamed; rw [namedVersions_agree h]
+
+theorem ctrlsPerPrev_agree (c : C09.Cfg) (doc : Doc) (prevs : List Nat) :
+    ctrlsPerPrev c s₁ doc prevs = ctrlsPerPrev c s₂ doc prevs := by
+  induction prevs with
+  | nil => simp only [ctrlsPerPrev]
+  | cons p ps ih => simp only [ctrlsPerPrev, resolveControllersTop_agree h, ih]
+
+theorem ambControllers_agree (c : C09.Cfg) (doc : Doc) (tx : Tx) : ambControllers c s₁ doc tx = ambControllers c s₂ doc tx := by
+  unfold ambControllers; rw [ctrlsPerPrev_agree h, resolveControllersTop_agree h]
+
+theorem authorisedBy_agree (c : C09.Cfg) (tx : Tx) (t : String) (v : Doc) :
+    authorisedBy c s₁ tx t v = authorisedBy c s₂ tx t v := by
+  unfold authorisedBy; rw [ambControllers_agree h]
+
+theorem checkOthers_agree (c : C09.Cfg) (tx : Tx) (t : String) (vs : List Doc) :
+    checkOthers c s₁ tx t vs = checkOthers c s₂ tx t vs := by
+  induction vs with
+  | nil => simp only [checkOthers]
+  | cons v vs ih => simp only [checkOthers, authorisedBy_agree h, ih]
+
+/-- C10's `add` on agreeing stores: same outcome, and the resulting stores agree again -/
+theorem add_agree (cfg : C10.Cfg) (e : Event) :
+    outcome (add cfg s₁ e) = outcome (add cfg s₂ e) ∧
+    ∀ a b, add cfg s₁ e = .ok a → add cfg s₂ e = .ok b → Agree a b := by
+  constructor
+  · unfold add
+    simp only
+    rw [h e.doc.id]
+    cases addDid cfg (s₂.get e.doc.id) e with
+    | ok o => cases o <;> rfl
+    | err x => rfl
+    | panic x => rfl
+  · intro a b ha hb id
+    obtain ⟨ho₁, hs₁⟩ := add_get cfg s₁ a e ha
+    obtain ⟨ho₂, hs₂⟩ := add_get cfg s₂ b e hb
+    by_cases hid : id = e.doc.id
+    · subst hid
+      rw [h e.doc.id] at hs₁
+      rcases hs₁ with ⟨hn₁, rfl⟩ | hsome₁ <;> rcases hs₂ with ⟨hn₂, rfl⟩ | hsome₂
+      · exact h _
+      · rw [hn₁] at hsome₂; cases hsome₂
+      · rw [hn₂] at hsome₁; cases hsome₁
+      · rw [hsome₁] at hsome₂
+        simpa using hsome₂
+    · rw [ho₁ id hid, ho₂ id hid]; exact h id
+
+theorem storeAdd_agree (c : C09.Cfg) (tx : Tx) (d : NDoc) :
+    outcome (storeAdd c s₁ tx d) = outcome (storeAdd c s₂ tx d) := by
+  have := (add_agree h c.store (eventOf tx d)).1
+  unfold storeAdd
+  revert this
+  cases add c.store s₁ (eventOf tx d) <;> cases add c.store s₂ (eventOf tx d) <;> simp [outcome]
+
+theorem handleUpdate_agree (c : C09.Cfg) (tx : Tx) (d : NDoc) :
+    outcome (handleUpdate c s₁ tx d) = outcome (handleUpdate c s₂ tx d) := by
+  unfold handleUpdate
+  rw [currentVersion_agree h, resolvePublicKey_agree h, otherNamed_agree h]
+  split
+  · rfl
+  · rfl
+  · rw [ambControllers_agree h]
+    split
+    · rfl
+    · rfl
+    · split
+      · rfl
+      · rfl
+      · split
+        · rfl
+        · rfl
+        · rfl
+        · split
+          · rfl
+          · rfl
+          · rw [checkOthers_agree h]
+            split
+            · rfl
+            · rfl
+            · rfl
+            · exact storeAdd_agree h c tx d
+
+theorem deliver_agree (c : C09.Cfg) (tx : Tx) (pd : Option NDoc) :
+    outcome (deliver c s₁ tx pd) = outcome (deliver c s₂ tx pd) := by
+  unfold deliver
+  rw [verifySig_agree h]
+  split
+  · unfold callback
+    split
+    · rfl
+    · rfl
+    · split
+      · rfl
+      · split
+        · rfl
+        · rfl
+        · split
+          · exact handleUpdate_agree h c tx _
+          · unfold handleCreate
+            split
+            · rfl
+            · exact storeAdd_agree h c tx _
+  · rfl
+  · rfl
+end
+
+theorem outcome_ok_inv {r₁ r₂ : Res Store} (h : outcome r₁ = outcome r₂) :
+    (∃ a b, r₁ = .ok a ∧ r₂ = .ok b) ∨ (∃ e, r₁ = .err e ∧ r₂ = .err e) ∨ (∃ x, r₁ = .panic x ∧ r₂ = .panic x) := by
+  cases r₁ <;> cases r₂ <;> simp [outcome] at h
+  · exact Or.inl ⟨_, _, rfl, rfl⟩
+  · subst h; exact Or.inr (Or.inl ⟨_, rfl, rfl⟩)
+  · subst h; exact Or.inr (Or.inr ⟨_, rfl, rfl⟩)
+
+/-- **Agreement is a bisimulation for deliveries**: on stores holding the same per-DID records one delivery has the same
+    outcome, contributes the same accepted event, and leads to stores that agree again -/
+theorem step_agree (c : C09.Cfg) {s₁ s₂ : Store} (h : Agree s₁ s₂) (p : Delivery) :
+    (step c s₁ p.1 p.2).2 = (step c s₂ p.1 p.2).2 ∧ acceptedEvent c s₁ p = acceptedEvent c s₂ p ∧
+    Agree (step c s₁ p.1 p.2).1 (step c s₂ p.1 p.2).1 := by
+  rcases outcome_ok_inv (deliver_agree h c p.1 p.2) with ⟨a, b, ha, hb⟩ | ⟨e, ha, hb⟩ | ⟨x, ha, hb⟩
+  · obtain ⟨a1, a2, d, hpd, hacc, hadd⟩ := step_ok c s₁ a p ha
+    obtain ⟨b1, b2, d', hpd', hacc', hadd'⟩ := step_ok c s₂ b p hb
+    rw [hpd] at hpd'
+    cases hpd'
+    rw [a1, a2, b1, b2, hacc, hacc']
+    exact ⟨rfl, rfl, (add_agree h c.store _).2 a b hadd hadd'⟩
+  · unfold step acceptedEvent
+    rw [ha, hb]
+    exact ⟨rfl, by cases p.2 <;> rfl, h⟩
+  · unfold step acceptedEvent
+    rw [ha, hb]
+    exact ⟨rfl, by cases p.2 <;> rfl, h⟩
+
+theorem run_agree (c : C09.Cfg) : ∀ (l : List Delivery) (s₁ s₂ : Store), Agree s₁ s₂ →
+    outcomes c s₁ l = outcomes c s₂ l ∧ accepted c s₁ l = accepted c s₂ l ∧ Agree (run c s₁ l) (run c s₂ l) := by
+  intro l
+  induction l with
+  | nil => intro s₁ s₂ h; exact ⟨rfl, rfl, h⟩
+  | cons p ps ih =>
+    intro s₁ s₂ h
+    obtain ⟨h1, h2, h3⟩ := step_agree c h p
+    obtain ⟨i1, i2, i3⟩ := ih _ _ h3
+    simp only [outcomes, accepted, run]
+    exact ⟨by rw [h1, i1], by rw [h2, i2], i3⟩
 end Nuts.Compose.Did
